@@ -6,12 +6,34 @@ Open Scope Z_scope.
 (* ---- the test files: byte j of every file is content_byte j (adjacent bytes always differ, lower-case letters:
         compressible, and no slice equals its neighbour shifted by one) ---- *)
 Definition content_byte (j : Z) : N := Z.to_N (97 + (j * 7 + (j / 13) * 5 + (j / 251) * 3) mod 26).
-Fixpoint content_from (fuel : nat) (j : Z) : bytes :=
-  match fuel with O => [] | S f => content_byte j :: content_from f (j + 1) end.
-Definition slice (start len : Z) : bytes := content_from (Z.to_nat len) start.
+(* the same bytes produced incrementally (no division per byte): x = the letter index of byte j,
+   k13 = j mod 13, k251 = j mod 251 *)
+Definition wrap26 (x : N) : N := if (x <? 26)%N then x else (x - 26)%N.
+Fixpoint content_run (fuel : nat) (x k13 k251 : N) : bytes :=
+  match fuel with
+  | O => []
+  | S f =>
+      let x1 := wrap26 (x + 7)%N in
+      let '(x2, k13') := if (k13 =? 12)%N then (wrap26 (x1 + 5)%N, 0%N) else (x1, (k13 + 1)%N) in
+      let '(x3, k251') := if (k251 =? 250)%N then (wrap26 (x2 + 3)%N, 0%N) else (x2, (k251 + 1)%N) in
+      (97 + x)%N :: content_run f x3 k13' k251'
+  end.
+Definition slice_gen (start len : Z) : bytes :=
+  content_run (Z.to_nat len) (Z.to_N ((start * 7 + (start / 13) * 5 + (start / 251) * 3) mod 26))
+              (Z.to_N (start mod 13)) (Z.to_N (start mod 251)).
+(* the largest test file, computed once when this file is compiled; slices of it are taken by position *)
+Definition bigfile : bytes := Eval vm_compute in slice_gen 0 8193.
+Definition slice (start len : Z) : bytes :=
+  if (0 <=? start) && (0 <=? len) && (start + len <=? 8193)
+  then firstn (Z.to_nat len) (skipn (Z.to_nat start) bigfile)
+  else slice_gen start len.
 
-(* big bodies travel as (length, polynomial hash, first 16 bytes, last 16 bytes) *)
-Definition hash_bytes (b : bytes) : N := fold_left (fun acc x => ((acc * 257 + x + 1) mod 1000000007)%N) b 0%N.
+(* big bodies travel as (length, Adler-32, first 16 bytes, last 16 bytes) *)
+(* Adler-32: position-sensitive, no division *)
+Definition adl (x : N) : N := if (x <? 65521)%N then x else (x - 65521)%N.
+Definition hash_bytes (b : bytes) : N :=
+  let '(a, c) := fold_left (fun ac x => let a := adl (fst ac + x)%N in (a, adl (snd ac + a)%N)) b (1%N, 0%N) in
+  (c * 65536 + a)%N.
 Inductive bodyrep := BRaw (b : bytes) | BSum (len : Z) (hash : N) (head tail : bytes).
 Definition lastn (n : nat) (b : bytes) : bytes := skipn (length b - n) b.
 Definition body_is (rep : bodyrep) (expected : bytes) : bool :=
@@ -84,7 +106,7 @@ Definition full (size : Z) : bytes := slice 0 size.
 
 (* the GET response against the expected outcome *)
 Definition get_ok (size : Z) (compress : bool) (ae : bytes) (e : expect) (o : fsobs) : bool :=
-  let ok200 :=
+  let ok200 := fun _ : unit =>
     (ob_status o =? 200) && beq (ob_cr o) []
     && (if beq (ob_ce o) [] then body_is (ob_body o) (full size) && (ob_cl o =? size)
         else (* content-coded: only when compression is on, the client offered gzip, and it decodes to the file *)
@@ -97,8 +119,8 @@ Definition get_ok (size : Z) (compress : bool) (ae : bytes) (e : expect) (o : fs
       (ob_status o =? 206) && beq (ob_cr o) (content_range s e' size) && (ob_cl o =? e' - s + 1)
       && beq (ob_ce o) [] && body_is (ob_body o) (slice s (e' - s + 1))
   | E416 => (ob_status o =? 416)
-  | E416or200 => (ob_status o =? 416) || ok200
-  | E200 => ok200
+  | E416or200 => (ob_status o =? 416) || ok200 tt
+  | E200 => ok200 tt
   end.
 
 (* HEAD carries the same headers as GET and no body *)
